@@ -150,6 +150,94 @@ def value_scenario(backend, root_dir):
     return fails
 
 
+NOARG_SRC = '''from twosigma.memento import memento_function
+
+
+class _Rec:
+    def __init__(self):
+        self._calls = []
+
+    def add(self, x):
+        self._calls.append(x)
+
+    def take(self):
+        out, self._calls = self._calls, []
+        return out
+
+
+REC = _Rec()
+
+
+@memento_function(cluster="cp")
+def table():
+    REC.add("table")
+    return ["table"]
+
+
+@memento_function(cluster="cp")
+def settings(mode="fast", *, depth=2):
+    REC.add("settings")
+    return [mode, depth]
+
+
+@memento_function(cluster="cp")
+def report(x):
+    REC.add("report")
+    return [x, table(), settings(), table.call_batch([{}])[0]]
+'''
+
+
+def noarg_scenario(backend, root_dir):
+    """calls that pass no argument at all (a function without parameters, one called with its defaults only): the context
+    arguments are still part of their identity, at the root, beneath a caller, and through a batch"""
+    import linecache, types, os
+    leaf = dict(explicit=False, stmts=[], const=1, **{"raise": [0, 0, 0, 0]})
+    w = progs.RunWorld(dict(fns={1: leaf}), backend=backend, root=root_dir, use_model=False)
+    fails = []
+    modname = "c16n_%d_%d" % (os.getpid(), id(w) % 100000)
+    fname = "<%s>" % modname
+    linecache.cache[fname] = (len(NOARG_SRC), None, NOARG_SRC.splitlines(True), fname)
+    mod = types.ModuleType(modname)
+    sys.modules[modname] = mod
+    try:
+        exec(compile(NOARG_SRC, fname, "exec"), mod.__dict__)
+        P, T = {"env": "prod"}, {"env": "test"}
+        steps = [("table() under prod", lambda: mod.table.with_context_args(P)(), ["table"]),
+                 ("table() under test", lambda: mod.table.with_context_args(T)(), ["table"]),
+                 ("table() without context", lambda: mod.table(), ["table"]),
+                 ("table() under prod again", lambda: mod.table.with_context_args(P)(), []),
+                 ("settings() under prod", lambda: mod.settings.with_context_args(P)(), ["settings"]),
+                 ("settings() under test", lambda: mod.settings.with_context_args(T)(), ["settings"]),
+                 ("settings() under test again", lambda: mod.settings.with_context_args(T)(), []),
+                 ("report(1) under {'tenant': 'a'}", lambda: mod.report.with_context_args({"tenant": "a"})(1), ["report", "settings", "table"]),
+                 ("report(1) under {'tenant': 'b'}", lambda: mod.report.with_context_args({"tenant": "b"})(1), ["report", "settings", "table"]),
+                 ("report(1) under {'tenant': 'a'} again", lambda: mod.report.with_context_args({"tenant": "a"})(1), []),
+                 ("report(1) under prod", lambda: mod.report.with_context_args(P)(1), ["report"]),
+                 ("table.call_batch([{}]) under {'tenant': 'c'}", lambda: mod.table.with_context_args({"tenant": "c"}).call_batch([{}]), ["table"])]
+        for text, call, want in steps:
+            mod.REC.take()
+            try:
+                call()
+            except Exception as e:
+                fails.append(dict(clause="different-context-stored-separately", call=text, error=repr(e)[:200]))
+                break
+            got = sorted(mod.REC.take())
+            if got != want:
+                fails.append(dict(clause="different-context-stored-separately" if len(got) < len(want) else "same-context-served-again",
+                                  call=text, executed=got, expected=want))
+                break
+        if not fails:
+            for cx in (P, T):
+                mm = mod.table.with_context_args(cx).memento()
+                ca = None if mm is None else dict(mm.invocation_metadata.fn_reference_with_args.context_args or {})
+                if ca != cx:
+                    fails.append(dict(clause="different-context-stored-separately", call="table.with_context_args(%r).memento()" % cx, context_args=repr(ca)))
+    finally:
+        sys.modules.pop(modname, None)
+        w.close()
+    return fails
+
+
 def chain_scenario(backend, root_dir):
     """context arguments attached to a function object that already carries some replace them entirely ({} clears them),
     at the root and at a nested edge"""
@@ -275,8 +363,8 @@ def thread_scenario(backend, root_dir):
 
 def main(chk, replay=None):
     if replay is not None:
-        if replay.get("kind") in ("chain", "threads"):
-            fails = (chain_scenario if replay["kind"] == "chain" else thread_scenario)(replay["backend"], None)
+        if replay.get("kind") in ("chain", "threads", "noarg"):
+            fails = dict(chain=chain_scenario, threads=thread_scenario, noarg=noarg_scenario)[replay["kind"]](replay["backend"], None)
             print(json.dumps(dict(still_fails=bool(fails), observed=fails[:3]), default=str))
             return 1 if fails else 0
         if replay.get("kind") == "values":
@@ -302,7 +390,7 @@ def main(chk, replay=None):
         for fl in fails[:2]:
             chk.violation({"what": "context arguments: %s for context %s" % (fl["clause"], fl.get("context")), "class": {"clause": fl["clause"], "kind": "values"},
                            "kind": "values", "backend": backend, "observed": fails[:3]})
-        for kind, fnc in (("chain", chain_scenario), ("threads", thread_scenario)):
+        for kind, fnc in (("chain", chain_scenario), ("threads", thread_scenario), ("noarg", noarg_scenario)):
             fails = fnc(backend, chk.tmpdir())
             chk.case(["context-" + kind, backend], nontrivial=True, sample=dict(kind="context " + kind, backend=backend))
             chk.count("context-" + kind)
